@@ -69,18 +69,19 @@ impl Drop for CounterGuard {
 
 fn worker(
     receiver: Receiver<BoxedDispatchable>,
-    counter: Arc<AtomicUsize>,
+    guard: CounterGuard,
     timeout: Duration,
 ) -> impl FnOnce() {
     move || {
-        counter.fetch_add(1, Ordering::AcqRel);
+        // The dispatcher has already counted this thread in `counter`; the guard
+        // gives the slot back when the thread exits.
+        let _guard = guard;
         #[cfg(compio_verif)]
         crate::verif::emit(
             crate::verif::WORKER_START,
-            counter.load(Ordering::Acquire) as u64,
+            _guard.0.load(Ordering::Acquire) as u64,
             0,
         );
-        let _guard = CounterGuard(counter);
         while let Ok(f) = receiver.recv_timeout(timeout) {
             f.run()
         }
@@ -122,19 +123,27 @@ impl AsyncifyPool {
                 TrySendError::Full(f) => {
                     if self.thread_limit == 0 {
                         panic!("the thread pool is needed but no worker thread is running");
-                    } else if self.counter.load(Ordering::Acquire) >= self.thread_limit {
+                    }
+                    // Reserve the slot of the new worker here, in one atomic step with
+                    // the limit check. If the worker counted itself in after it has
+                    // started, concurrent dispatchers would all pass the check.
+                    let reserved = self
+                        .counter
+                        .fetch_update(Ordering::AcqRel, Ordering::Acquire, |n| {
+                            (n < self.thread_limit).then_some(n + 1)
+                        })
+                        .is_ok();
+                    if !reserved {
                         // SAFETY: we can ensure the type
                         Err(DispatchError(*unsafe {
                             Box::from_raw(Box::into_raw(f).cast())
                         }))
                     } else {
+                        // Dropped, and the slot released, if the thread cannot be spawned.
+                        let guard = CounterGuard(self.counter.clone());
                         #[cfg(compio_verif)]
                         crate::verif::sched_point(10);
-                        std::thread::spawn(worker(
-                            self.receiver.clone(),
-                            self.counter.clone(),
-                            self.recv_timeout,
-                        ));
+                        std::thread::spawn(worker(self.receiver.clone(), guard, self.recv_timeout));
                         self.sender.send(f).expect("the channel should not be full");
                         Ok(())
                     }
